@@ -434,6 +434,40 @@ class Inliner:
                         h = Helper(m, st.name)
                         if h.ok:
                             self.helpers[(st.name, m.name)] = h
+        # thin delegates: a function/method whose whole body is one call of
+        # a public module-level function that nobody else in this module
+        # calls is the place where that function's body is judged
+        pub = {st.name: st for st in tree.body
+               if isinstance(st, ast.FunctionDef)
+               and not _is_private(st.name) and not st.decorator_list}
+        if pub:
+            callers = {}
+            methods = {id(m) for c_ in tree.body
+                       if isinstance(c_, ast.ClassDef) for m in c_.body}
+            for holder in ast.walk(tree):
+                if not isinstance(holder, ast.FunctionDef):
+                    continue
+                body = [s for s in holder.body if not (
+                    isinstance(s, ast.Expr) and isinstance(
+                        s.value, ast.Constant))]
+                thin = id(holder) in methods and len(body) == 1 and \
+                    isinstance(body[0], (ast.Expr, ast.Return)) and \
+                    isinstance(body[0].value, ast.Call) and isinstance(
+                        body[0].value.func, ast.Name)
+                for c in _own_nodes(holder):
+                    if isinstance(c, ast.Call) and isinstance(
+                            c.func, ast.Name) and c.func.id in pub:
+                        callers.setdefault(c.func.id, []).append(
+                            thin and c is body[0].value)
+            refs = {}
+            for n in ast.walk(tree):
+                if isinstance(n, ast.Name) and n.id in pub:
+                    refs[n.id] = refs.get(n.id, 0) + 1
+            for name, how in callers.items():
+                if how == [True] and refs.get(name, 0) == 1:
+                    h = Helper(pub[name], None)
+                    if h.ok:
+                        self.helpers[(None, name)] = h
         self.counter = [0]
         self.used = set()
 
@@ -988,6 +1022,13 @@ def _scalar_const(v):
         return _scalar_const(v.operand) and not isinstance(
             v.operand.value if isinstance(v.operand, ast.Constant) else 0,
             str)
+    if isinstance(v, ast.Call) and isinstance(v.func, ast.Name) and \
+            v.func.id == "slice" and not v.keywords and 1 <= len(
+                v.args) <= 3 and all(
+                isinstance(a, ast.Constant) or (
+                    isinstance(a, ast.UnaryOp) and isinstance(
+                        a.operand, ast.Constant)) for a in v.args):
+        return True      # an index constant, e.g. slice(None, None, -1)
     return False
 
 
@@ -1877,6 +1918,10 @@ def normalize_module(tree: ast.Module, extern=None) -> ast.Module:
     for n in ast.walk(tree):
         if isinstance(n, ast.FunctionDef):
             n2.inline_local_defs(n)
+            n2.next_loops(n)
+            n2.counted_while(n)
+            n2.single_use_dicts(n)
+            n2.flag_finally(n)
     for _round in range(2):
         before = ast.dump(tree) if _round else None
         tree = Inliner(tree).run()
@@ -1887,6 +1932,11 @@ def normalize_module(tree: ast.Module, extern=None) -> ast.Module:
                 n2.merge_appends(n)
                 n2.literal_iterables(n)
         tree = n2.Idioms3().visit(tree)
+        n2.inline_module_lambdas(tree)
+        tree = n2.Idioms3().visit(tree)
+        for n in ast.walk(tree):
+            if isinstance(n, ast.FunctionDef):
+                n2.filtered_loops(n)
         tree = n2.ItemsLoops().visit(tree)
         tree = Unroll().visit(tree)
         if _round and ast.dump(tree) == before:
